@@ -21,6 +21,7 @@ func checkC15(w *World, r *Result) {
 	checkCandidates(w, r)
 	mutAnRule(w, r, func(rel string) bool { return rel == "generator/go/randdata" })
 	cacheDropRule(w, r, func(rel string) bool { return rel == "generator/go/randdata" })
+	descentDominatesReturns(w, r, "generator/go/randdata")
 	printfRule(w, r, "generator/go/randdata")
 	aliasAppendRule(w, r, func(rel string) bool { return rel == "analysis" || rel == "generator/go/randdata" })
 	// the gomacro-data:"ignore" tag the struct loop reads is the field's own, also for fields promoted from an embedded struct
